@@ -308,7 +308,18 @@ def decorate(rng, V, F, feats, tag=""):
         used = np.unique(F)
         for b in rng.choice(used, size=min(len(used), int(rng.integers(1, 3))), replace=False):
             Vl[b] = Vl[b].copy()
-            Vl[b][int(rng.integers(3))] = bad[int(rng.integers(3))]
+            axis = int(rng.integers(3))
+            Vl[b][axis] = bad[int(rng.integers(3))]
+            if rng.random() < 0.6:
+                # the finite "shadow" of the broken vertex - equal in the other coordinates, a plain
+                # number where the other one is NaN/inf - is a referenced vertex too: a merge that
+                # loses the non-finite entry on the way to its row hash welds the two
+                shadow = Vl[b].copy()
+                shadow[axis] = (0.0, 0.0, -0.0, 1.0, -1.0)[int(rng.integers(5))]
+                idx = add_vertex(shadow, fresh_group(), ng[b])
+                f = F[int(rng.integers(len(F)))].copy()
+                f[int(rng.integers(3))] = idx
+                F = np.vstack([F, f[None, :]])
     V = np.array(Vl, dtype=np.float64).reshape(-1, 3)
     uvg = np.array(uvg, dtype=np.int64)
     ng = np.array(ng, dtype=np.int64)
